@@ -110,6 +110,7 @@ class SkyConfig:
                         raise ValueError(f"scale {val} rad coincides with a lattice distance")
                     arr[s][b] = 2 * math.floor(h / 2) + 1     # the odd half-step in the same gap between lattice distances
         self.lo, self.hi = lo, hi
+        self.max_d = max(max(r) for r in hi) // 2 + 1      # distances beyond the widest scale are never needed
         th = get_max_angle(cfg).data[0] / half
         self.theta_impl = 2 * math.floor(th / 2) + 1
         return self
@@ -137,7 +138,42 @@ DESIGN_INVS = ["PruningLosesNothing", "LinkSymmetric", "SelfLinked", "TotalsAgre
 SYM_INVS = ["RotationInvariant", "ReflectionInvariant", "WeightScaling", "SplitAdditive"]
 
 
-def model_check(ctx, label, sc: SkyConfig, invariants, *, deviations="{}", want_print=True, timeout=1500):
+def model_check_many(ctx, jobs, threads: int = 6):
+    """Run several Sky model-checking jobs concurrently (TLC computes and checks the
+    initial states - all there is in this spec - on one thread, so the families are
+    run side by side).  jobs: [(label, sc, invariants, kwargs)] -> [(res, scenarios)]"""
+    from concurrent.futures import ThreadPoolExecutor
+
+    def one(job):
+        label, sc, invariants, kw = job
+        return _model_check(sc, invariants, workers=2, **kw)
+
+    with ThreadPoolExecutor(max_workers=threads) as ex:
+        outs = list(ex.map(one, jobs))
+    for (label, sc, invariants, kw), (res, scen) in zip(jobs, outs):
+        _record(ctx, label, sc, res, kw.get("deviations", "{}"))
+    return outs
+
+
+def _model_check(sc, invariants, *, deviations="{}", want_print=True, timeout=1500, workers="auto", print_inv="PrintScenario"):
+    name, mods, consts = tlc.mc_module("Sky", sc.tla_defs(deviations))
+    invs = list(invariants) + ([print_inv] if want_print else [])
+    res = tlc.run(name, tlc.make_cfg(constants=consts, invariants=invs, deadlock=False), extra_modules=mods, timeout=timeout, workers=workers)
+    return res, (res.printed("scenario") if want_print and res.ok else [])
+
+
+def _record(ctx, label, sc, res, deviations):
+    ctx.add_tlc(label, res, config=dict(nref=sc.nref, nunk=sc.nunk, slots=sc.slots, zcells=sc.zcells, weights=sc.weights, closed=sc.closed,
+                                         lo=sc.lo, hi=sc.hi, theta_impl=sc.theta_impl, deviations=deviations))
+
+
+def model_check(ctx, label, sc: SkyConfig, invariants, *, deviations="{}", want_print=True, timeout=1500, print_inv="PrintScenario"):
+    res, scen = _model_check(sc, invariants, deviations=deviations, want_print=want_print, timeout=timeout, print_inv=print_inv)
+    _record(ctx, label, sc, res, deviations)
+    return res, scen
+
+
+def _unused_model_check(ctx, label, sc: SkyConfig, invariants, *, deviations="{}", want_print=True, timeout=1500):
     name, mods, consts = tlc.mc_module("Sky", sc.tla_defs(deviations))
     invs = list(invariants) + (["PrintScenario"] if want_print else [])
     res = tlc.run(name, tlc.make_cfg(constants=consts, invariants=invs, deadlock=False), extra_modules=mods, timeout=timeout)
